@@ -229,4 +229,54 @@ example : GhwSpec.elemLabels true 1 0 = [1, 0] ∧ GhwSpec.elemLabels false 3 5 
 example : lastWrite [(0, 1), (2, 5), (0, 3)] 0 = some 3 ∧ lastWrite [(0, 1), (2, 5)] 1 = none := by decide
 example : enumBits 2 = 1 ∧ enumBits 3 = 2 ∧ enumBits 9 = 4 ∧ enumBits 1 = 0 := by decide
 
+/-! ### byte order -/
+
+/-- the `k` bytes of `n`, most significant first -/
+def bytesBE : Nat → Nat → List Nat
+  | 0, _ => []
+  | k + 1, n => bytesBE k (n / 256) ++ [n % 256]
+
+theorem foldl_bytesBE : ∀ (k n acc : Nat),
+    (bytesBE k n).foldl (fun a b => a * 256 + b) acc = acc * 256 ^ k + n % 256 ^ k := by
+  intro k
+  induction k with
+  | zero => intro n acc; simp [bytesBE, Nat.mod_one]
+  | succ k ih =>
+    intro n acc
+    simp only [bytesBE, List.foldl_append, List.foldl_cons, List.foldl_nil, ih]
+    have h1 : n % 256 ^ (k + 1) = (n / 256 % 256 ^ k) * 256 + n % 256 := by
+      rw [Nat.pow_succ, Nat.mul_comm (256 ^ k) 256, Nat.mod_mul]; omega
+    rw [h1, Nat.pow_succ]
+    have : acc * (256 ^ k * 256) = acc * 256 ^ k * 256 := by rw [Nat.mul_assoc]
+    omega
+
+theorem bytesBE_length : ∀ (k n : Nat), (bytesBE k n).length = k := by
+  intro k; induction k with
+  | zero => intro n; rfl
+  | succ k ih => intro n; simp [bytesBE, ih]
+
+/-- **both byte orders are read alike**: the `k` bytes of `n` in big-endian order, read with the big-endian flag, and the same
+bytes reversed (little-endian order), read without it, give `n` (for `n < 256^k`) — so a time, an integer or a length means the
+same in a big-endian and a little-endian GHW file -/
+theorem C11_endianness (k n : Nat) (h : n < 256 ^ k) :
+    natOfBytes true (bytesBE k n) = n ∧ natOfBytes false (bytesBE k n).reverse = n := by
+  have := foldl_bytesBE k n 0
+  simp only [Nat.zero_mul, Nat.zero_add, Nat.mod_eq_of_lt h] at this
+  exact ⟨by simp [natOfBytes, this], by simp [natOfBytes, this]⟩
+
+/-- … in particular 64-bit times (femtoseconds) and two's-complement integers -/
+theorem C11_i64_endianness (t : Nat) (h : t < 2 ^ 63) :
+    i64Of true (bytesBE 8 t) = t ∧ i64Of false (bytesBE 8 t).reverse = t := by
+  have hk : t < 256 ^ 8 := by
+    have : (256 : Nat) ^ 8 = 2 ^ 64 := by decide
+    rw [this]; omega
+  obtain ⟨h1, h2⟩ := C11_endianness 8 t hk
+  unfold i64Of
+  simp only [h1, h2]
+  have : ¬ t ≥ 2 ^ 63 := by omega
+  simp [this]
+
+example : natOfBytes true [0, 0, 1, 2] = 258 ∧ natOfBytes false [2, 1, 0, 0] = 258 := by decide
+
+
 end Wellen.Ghw
